@@ -82,7 +82,11 @@ CHECKS = {
              "yyless/yyunput/yyinput/yymore calls: yylineno = 1 + newlines of everything - newlines still unread) and "
              "C09_untouched_without_option; for scanners whose actions REJECT: C09_reject_does_not_count_lines (the number an action sees "
              "is one plus the newlines consumed before its token plus those of the text handed to it, whatever was rejected before). "
-             "Compiled scanners print yylineno in every action and are compared with the machine / with rej_tokens_ln.",
+             "The emitted table yy_rule_can_match_eol (coq/EolTable.v): C09_can_match_eol_decided (can_nl decides whether a pattern has a "
+             "match containing a newline), C09_eol_table_covers_every_newline (a table passing the extracted eol_ok is set for every rule "
+             "and EVERY text its head can match that contains a newline), C09_newline_witness_is_a_match (the witness tried as failing "
+             "input when a flag is missing). Compiled scanners print yylineno in every action and are compared with the machine / with "
+             "rej_tokens_ln; the eol tables of generated rule sets are judged without running a scanner.",
         design="DESIGN.md section 6 C09", technique="machine-checked invariant (Rocq) over all histories + differential event streams"),
     "C10": dict(
         text="Rocq theorems C10_eof_only_when_exhausted (the <<EOF>> action of the current condition runs only when no byte is left in "
